@@ -36,7 +36,7 @@ func init() {
 }
 
 var types = []lib.Named{
-	{Name: "@p", Text: `{"pp": 1}`}, {Name: "@t", Text: `{"a": 1}`}, {Name: "@tinteger", Text: "1"}, {Name: "@tfloat", Text: "1.5"},
+	{Name: "@p", Text: `{"pp": 1}`}, {Name: "@e", Text: `{}`}, {Name: "@t", Text: `{"a": 1}`}, {Name: "@tinteger", Text: "1"}, {Name: "@tfloat", Text: "1.5"},
 	{Name: "@tstring", Text: `"s"`}, {Name: "@tboolean", Text: "true"}, {Name: "@tnull", Text: "null"},
 }
 
@@ -49,9 +49,9 @@ var atoms = []ref.RuleAtom{
 	{Name: "exclusiveMaximum", Variant: "true"}, {Name: "exclusiveMaximum", Variant: "false"},
 	{Name: "precision"}, {Name: "minLength"}, {Name: "maxLength"}, {Name: "maxLength", Variant: "disordered"}, {Name: "regex"},
 	{Name: "minItems"}, {Name: "maxItems"}, {Name: "maxItems", Variant: "disordered"},
-	{Name: "additionalProperties"}, {Name: "allOf"}, {Name: "enum"}, {Name: "or"}, {Name: "or", Variant: "disordered-set"}, {Name: "or", Variant: "ordered-set"},
+	{Name: "additionalProperties"}, {Name: "allOf"}, {Name: "allOf", Variant: "empty-parent"}, {Name: "enum"}, {Name: "or"}, {Name: "or", Variant: "disordered-set"}, {Name: "or", Variant: "ordered-set"},
 	{Name: "type", Variant: "kind"}, {Name: "type", Variant: "any"}, {Name: "type", Variant: "ref"}, {Name: "type", Variant: "decimal"}, {Name: "type", Variant: "date"},
-	{Name: "optional", Variant: "true"}, {Name: "nullable", Variant: "true"}, {Name: "nullable", Variant: "false"},
+	{Name: "optional", Variant: "true"}, {Name: "optional", Variant: "false"}, {Name: "nullable", Variant: "true"}, {Name: "nullable", Variant: "false"},
 	{Name: "const", Variant: "true"}, {Name: "const", Variant: "false"}, {Name: "foo"},
 }
 
@@ -155,6 +155,9 @@ func build(c Case) (*ref.SNode, []ref.RuleAtom, bool) {
 			r.Tok = "true"
 		case "allOf":
 			r.ValKind, r.AllOf = ref.RVAllOf, []string{"@p"}
+			if a.Variant == "empty-parent" {
+				r.AllOf = []string{"@e"} // a parent type that contributes nothing
+			}
 		case "enum":
 			r.ValKind = ref.RVEnum
 			ex := ref.EnumItem{Kind: n.Lit, Tok: n.Tok, Str: n.Str}
